@@ -13,6 +13,8 @@
 #include "nmtools/array/view/triu.hpp"
 #include "nmtools/array/view/eye.hpp"
 #include "nmtools/array/view/tri.hpp"
+#include "nmtools/array/view/hstack.hpp"
+#include "nmtools/array/view/vstack.hpp"
 
 namespace nm = nmtools;
 namespace ix = nmtools::index;
@@ -67,3 +69,10 @@ auto verif_shape_triu(sv_t shape) { return ix::shape_triu(shape); }
 auto verif_triu(sv_t shape, sv_t idx, int k) { return ix::triu(shape,idx,k); }
 auto verif_eye(sv_t shape, sv_t idx, int k) { return ix::eye(shape,idx,k); }
 auto verif_tri(sv_t shape, sv_t idx, int k) { return ix::tri(shape,idx,k); }
+
+// ---- roll with several axes (shift list, axis list): shape / validity only (the index variant is not covered)
+auto verif_shape_roll_axes(sv_t shape, iv_t shift, iv_t axis) { return ix::shape_roll(shape,shift,axis); }
+
+// ---- helpers of the stack family (view/hstack.hpp, view/vstack.hpp)
+auto verif_hstack_axis(sv_t lhs, sv_t rhs) { return ix::hstack_axis(lhs,rhs); }
+auto verif_shape_vstack(sv_t shape) { return ix::shape_vstack(shape); }
